@@ -289,11 +289,18 @@ func coldCase(c *ev.Case) {
 	}
 }
 
-// bigCase: megabyte-sized inputs (implementations may switch strategy with size).
+// bigSizes: from a few KiB (where an implementation may start to work in
+// chunks, in parallel or through pooled buffers) to megabytes; visited by index.
+var bigSizes = []int{8 << 10, 16 << 10, 20000, 40000, 64 << 10, 100001, 256 << 10, 512 << 10, 512<<10 + 16, 768 << 10, 1 << 20, 3 << 20}
+
+// bigCase: large inputs (implementations may switch strategy with size). CBC
+// encrypt/decrypt in both layouts, AESCBCDecrypt on a large ciphertext whose
+// padding was damaged or whose length is illegal, GCM Seal/Open equality with
+// tampering, and the standalone PKCS#7 pair on a large d.
 func bigCase(c *ev.Case) {
 	rng := c.Rng
-	klen := keySizes[c.Index%3]
-	n := rng.Pick(256<<10, 512<<10, 512<<10+16, 768<<10, 1<<20, 3<<20) + rng.Pick(0, 0, 1, 15, 16)
+	n := bigSizes[c.Index%len(bigSizes)] + rng.Pick(0, 0, 1, 15, 16)
+	klen := keySizes[(c.Index/len(bigSizes))%3]
 	key, iv := rng.Bytes(klen), rng.Bytes(blk)
 	pt := rng.Bytes(n)
 	b, err := aes.NewCipher(key)
@@ -332,9 +339,154 @@ func bigCase(c *ev.Case) {
 			return
 		}
 	}
+
+	// a large ciphertext that is not (necessarily) a correctly padded message:
+	// one bit of the last byte of the next-to-last cipher block is flipped, which
+	// flips the same bit of the final pad byte; the reference decides the outcome
+	{
+		bad := clone(want)
+		bit := byte(1) << uint(rng.Intn(5))
+		bad[len(bad)-blk-1] ^= bit
+		plain := cbcDecRaw(b, iv, bad)
+		ref := refUnpad(plain, blk)
+		var w []byte
+		if ref.ok {
+			w = plain[:ref.n]
+		}
+		why := fmt.Sprintf("%d-byte ciphertext of a %d-byte plaintext with bit mask %#02x applied to byte %d; reference-decrypted last block %s; reference un-padding: %s", len(bad), n, bit, len(bad)-blk-1, hx(plain[len(plain)-blk:]), ref.class)
+		if !cbcDecryptCheck(c, rng.Bool(), bad, key, iv, ref.ok, w, why) {
+			return
+		}
+		if ref.ok {
+			c.Add("big_cbc_damaged_still_valid_recovered", 1)
+		} else {
+			c.Add("big_cbc_damaged_padding_rejected", 1)
+		}
+		// illegal length: one byte missing / one byte too many
+		short := clone(want[:len(want)-1])
+		if rng.Bool() {
+			short = append(clone(want), 0)
+		}
+		if !cbcDecryptCheck(c, rng.Bool(), short, key, iv, false, nil, fmt.Sprintf("%d-byte ciphertext, not a multiple of 16", len(short))) {
+			return
+		}
+		c.Add("big_cbc_illegal_length_rejected", 1)
+	}
+
+	// GCM on the same plaintext
+	{
+		nonceLen := 12
+		if c.Index%4 == 3 {
+			nonceLen = rng.Pick(8, 13, 16)
+		}
+		aadLen := rng.Pick(1, 7, 16, 33)
+		if c.Index%5 == 4 {
+			aadLen = 0
+		}
+		m := &gcmMsg{key: key, nonce: rng.Bytes(nonceLen), aad: rng.Bytes(aadLen), pt: pt}
+		g, err := refGCM(key, nonceLen)
+		if err != nil {
+			c.Run().HarnessFailure("reference GCM: " + err.Error())
+			return
+		}
+		m.sealed = g.Seal(nil, m.nonce, pt, m.aad)
+		var l int
+		if !c.Guard("AESGCMEncryptLen", func() { l = cryptz.AESGCMEncryptLen(pt) }) {
+			return
+		}
+		if l != len(m.sealed) {
+			c.Failf("gcm-enclen", "AESGCMEncryptLen(%d-byte plaintext) = %d, Seal produces %d bytes", n, l, len(m.sealed))
+			return
+		}
+		inplace := c.Index%2 == 0
+		if !gcmEncryptCheck(c, inplace, m) || !gcmDecryptCheck(c, !inplace, m) {
+			return
+		}
+		c.Add("big_gcm_roundtrips", 1)
+		for t := 0; t < 4; t++ {
+			ct, nonce, aad := m.sealed, m.nonce, m.aad
+			var what string
+			switch {
+			case t == 0:
+				ct = clone(m.sealed)
+				i := rng.Intn(n)
+				if rng.Chance(1, 3) {
+					i = n - 1 - rng.Intn(blk)
+				}
+				ct[i] ^= 1 << uint(rng.Intn(8))
+				what = fmt.Sprintf("flipping one bit of ciphertext byte %d of %d", i, n)
+			case t == 1:
+				ct = clone(m.sealed)
+				i := rng.Intn(tagLen)
+				ct[n+i] ^= 1 << uint(rng.Intn(8))
+				what = fmt.Sprintf("flipping one bit of tag byte %d", i)
+			case t == 2:
+				nonce = clone(m.nonce)
+				i := rng.Intn(len(nonce))
+				nonce[i] ^= 1 << uint(rng.Intn(8))
+				what = fmt.Sprintf("flipping one bit of nonce byte %d", i)
+			case len(aad) > 0:
+				aad = clone(m.aad)
+				i := rng.Intn(len(aad))
+				aad[i] ^= 1 << uint(rng.Intn(8))
+				what = fmt.Sprintf("flipping one bit of additional-data byte %d", i)
+			default:
+				aad = []byte{0}
+				what = "adding one byte of additional data"
+			}
+			if !mustReject(c, rng.Bool(), m, ct, nonce, aad, what+fmt.Sprintf(" (%d-byte message)", n)) {
+				return
+			}
+			c.Add("big_gcm_tampers_rejected", 1)
+		}
+	}
+
+	// standalone PKCS#7 on a large d: round trip, then one damaged pad byte
+	{
+		bs := 1 + rng.Intn(255)
+		if rng.Chance(1, 3) {
+			bs = rng.Pick(8, 16, 255, 17)
+		}
+		d := pt[:n-rng.Intn(min(n, 300))]
+		padded0 := refPad(d, bs)
+		in := make([]byte, len(d), len(d)+rng.Pick(0, 0, 400))
+		copy(in, d)
+		var padded, back []byte
+		var e error
+		if !c.Guard("PKCS7Padding", func() { padded, e = cryptz.PKCS7Padding(in, bs) }) {
+			return
+		}
+		if e != nil || !bytes.Equal(padded, padded0) {
+			c.Failf("pad-output/big", "PKCS7Padding(%d-byte d, %d): err=%v, result (%d bytes) is not d plus %d bytes of value %d (first difference at byte %d)", len(d), bs, e, len(padded), len(padded0)-len(d), len(padded0)-len(d), firstDiff(padded, padded0))
+			return
+		}
+		if !c.Guard("PKCS7UnPadding", func() { back, e = cryptz.PKCS7UnPadding(clone(padded0), bs) }) {
+			return
+		}
+		if e != nil || !bytes.Equal(back, d) {
+			c.Failf("pad-roundtrip-diff/big", "PKCS7UnPadding(PKCS7Padding(d, %d), %d) for a %d-byte d: err=%v, %d bytes returned, first difference at byte %d", bs, bs, len(d), e, len(back), firstDiff(back, d))
+			return
+		}
+		c.Add("big_pkcs7_roundtrips", 1)
+		p := len(padded0) - len(d)
+		if p >= 2 {
+			bad := clone(padded0)
+			pos := len(d) + rng.Intn(p-1)
+			bad[pos] ^= 1 << uint(rng.Intn(8))
+			if !c.Guard("PKCS7UnPadding", func() { back, e = cryptz.PKCS7UnPadding(bad, bs) }) {
+				return
+			}
+			c.Logf("PKCS7UnPadding(%d bytes with pad %d, pad byte %d damaged, b=%d) -> %d bytes, err=%v", len(bad), p, pos-len(d), bs, len(back), e)
+			if e == nil {
+				c.Failf("unpad-accepts-bad/big", "PKCS7UnPadding(data, %d) returned %d bytes and nil error for %d bytes of data whose %d-byte padding has a damaged byte at pad offset %d (tail %s)", bs, len(back), len(bad), p, pos-len(d), hx(bad[len(bad)-p:]))
+				return
+			}
+			c.Add("big_pkcs7_damaged_padding_rejected", 1)
+		}
+	}
 	c.Add("big_cases", 1)
 	c.Distinct(ev.Mix(uint64(n), uint64(klen), ev.HashBytes(key)))
 	if c.WantSample() {
-		c.Sample(fmt.Sprintf("big: AES-%d CBC encrypt/decrypt, separate and in place, %d bytes == reference", klen*8, n))
+		c.Sample(fmt.Sprintf("big: AES-%d, %d bytes: CBC encrypt/decrypt separate and in place == reference, damaged-padding and illegal-length ciphertexts judged like the reference, GCM == Seal/Open with 4 tampers rejected, PKCS#7 round trip + damaged pad rejected", klen*8, n))
 	}
 }
